@@ -170,7 +170,14 @@ def run(chk):
              "has(m.a) ? m.a : 0", "f'{l}'", "m.filter(k, seen[k] > 0)", "m.map(k, seen[k])", "m.all(k, seen[k] > 0)",
              "m.exists(k, seen[k] > 0)", "m.exists_one(k, seen[k] > 0)", "m.filter(k, nosuch(k))", "m.map(k, 1 / (m[k] - m[k]))",
              "m.map(k, zz)", "m.reduce(a, k, a + seen[k], 0)", "{'q': 1, 'r': 2, 's': 3, 't': 4}.filter(k, seen[k])",
-             "m.filter(k, k.size() > int(k))", "l.map(x, x).filter(y, y > 1)", "coalesce(zz, m.b)", "[1, 2, 3].map(i, i + x)"]
+             "m.filter(k, k.size() > int(k))", "l.map(x, x).filter(y, y > 1)", "coalesce(zz, m.b)", "[1, 2, 3].map(i, i + x)",
+             # maps built at run time and compared: several entries that differ in different ways (a failing comparison, unequal
+             # values, a missing key), so that any dependence on the visiting order shows in the result
+             "{'a': 1 / (x - x), 'b': 1, 'c': 2, 'd': 3} == {'a': 1, 'b': 2, 'c': 2, 'd': 4}",
+             "{'a': [1 / (x - x)], 'b': x, 'c': 5} != {'a': [1], 'b': 4, 'c': 5}", "{'k1': zz, 'k2': 1, 'k3': 2} == {'k1': 1, 'k2': 2, 'k3': 3}",
+             "{'p': 1 / (x - x), 'q': 1, 'r': x} == {'p': 1, 'q': 1, 's': x}", "[{'p': zz, 'q': 1} == {'p': 1, 'q': 2}, {'p': zz, 'q': 1} != {'p': 1, 'q': 2}]",
+             "{'a': 1 / (x - x), 'b': 2} in [{'a': 1, 'b': 3}, {'a': 1, 'b': 2}]", "{'a': {'i': zz, 'j': 1}, 'b': 1} == {'a': {'i': 1, 'j': 2}, 'b': 2}",
+             "m.map(k, {'u': seen[k], 'v': k} == {'u': 1, 'v': 'a'})", "{'a': x, 'b': zz, 'c': nosuch(1)} == {'a': 0, 'b': 1, 'c': 2}"]
     bigmap = vmap([("k%02d" % i, vi(i)) for i in range(24)] + [("a", vi(1)), ("b", vi(2))])
     binds = [("m", bigmap), ("l", vlist([vi(i) for i in range(8)])), ("x", vi(3)), ("seen", vmap([("other", vi(1))]))]
     ccases = ["concurrent 16 6 %s %s" % (hx(p), binds_tokens(binds)) for p in progs]
